@@ -708,6 +708,125 @@ def _replay_divcurl(case, clause, model, seed):
     return {"ran": True, "failed": False, "searched": tried, "detail": "real code satisfies every clause on the model inputs and the seeded inputs"}
 
 
+# ================================================================================================
+# vibrability
+
+
+class Vibrability(Unit):
+    module = MOD
+    qualname = "vibrability"
+    prop = "C15"
+    timeout = 20
+
+    def cases(self):
+        return [f"d={d}/{o}" for d in (2, 3) for o in ("nofile", "file")]
+
+    def setup(self, ctx, case):
+        d = int(case[2])
+        N, K = ctx.int("N"), ctx.int("K")
+        ctx.assume(N >= 1)
+        ctx.assume(K >= 0)
+        W = ctx.array("omega", (K,), "float", origin="argument eigenfrequencies")
+        EV = ctx.array("ev", (A.simp(sv.mul(d, N)), K), "float", origin="argument eigenvectors")
+        out = "" if case.endswith("nofile") else "vibrability.npy"
+        return [W, EV, N], ({"outputfile": out} if out else {}), dict(d=d, N=N, K=K, W=W, EV=EV, out=out, watch=[W.sid, EV.sid])
+
+    def clause_names(self, case):
+        return ["shape", "a:vibrability_i=sum_l|e_li|^2/omega_l^2", "b:saved-array-is-the-returned-one", "frame:inputs-not-written"]
+
+    def ensures(self, ctx, case, inp, out):
+        d, N, K, W, EV = inp["d"], inp["N"], inp["K"], inp["W"], inp["EV"]
+        res = out.value
+        ok = isinstance(res, A.Arr) and res.ndim == 1 and A.dim_eq_syntactic(res.shape[0], N)
+        yield "shape", bool(ok)
+        if not ok:
+            return
+        wr, er = W.reader(), EV.reader()
+        p = ctx.int("p")
+        inr = sv.and_(sv.cmp(">=", p, 0), sv.cmp("<", p, N))
+        # particle p owns rows d*p .. d*p+d-1 of every mode (the layout of the Hessian module: reshape(N, -1) of a column)
+        want = Sum(0, K, lambda l: sv.div(_sum([_sq(er((A.simp(sv.add(sv.mul(d, p), c)), l))) for c in range(d)]), _sq(wr((l,)))))
+        yield "a:vibrability_i=sum_l|e_li|^2/omega_l^2", sv.implies(inr, sv.cmp("==", res.get((p,)), want))
+        saves = [t for t in out.state.trace if t and t[0] == "np.save"]
+        if inp["out"]:
+            good = len(saves) == 1 and saves[0][1] == inp["out"] and isinstance(saves[0][2], A.Arr) and saves[0][2].ndim == 1
+            if good:
+                yield "b:saved-array-is-the-returned-one", sv.implies(inr, sv.cmp("==", saves[0][2].get((p,)), res.get((p,))))
+            else:
+                yield "b:saved-array-is-the-returned-one", False
+        else:
+            yield "b:saved-array-is-the-returned-one", len(saves) == 0
+        stores = [e for e in out.state.events if e[0] == "store" and e[1] in inp["watch"]]
+        yield "frame:inputs-not-written", len(stores) == 0
+
+    def replay(self, case, clause, model, seed):
+        return _replay_vib(case, clause, model, seed)
+
+
+def _replay_vib(case, clause, model, seed):
+    import importlib
+    import os
+    import random
+    import shutil
+    import tempfile
+
+    import numpy as np
+    V = importlib.import_module(MOD)
+    d = int(case[2])
+    tofile = case.endswith("/file")
+    rng = random.Random(seed)
+    tmp = tempfile.mkdtemp(prefix="pyvc-c15-")
+    tried = 0
+    try:
+        for k in range(200):
+            first = k == 0 and model.get("N") is not None
+            if first:
+                N = max(1, min(int(_fr(model.get("N"), 2)), 12))
+                K = max(0, min(int(_fr(model.get("K"), 2)), 12))
+                ev = _arr_from_model(model, "ev", (d * N, max(K, 1)), rng)[:, :K]
+                om = np.array([rng.uniform(0.5, 3) for _ in range(K)])
+                ents, _ = _func_entries(model, "omega")
+                for e in ents:
+                    v = _fr(e[1])
+                    if isinstance(e[0], int) and 0 <= e[0] < K and v not in (None, 0):
+                        om[e[0]] = v
+            else:
+                N = rng.choice([1, 2, 3, 7])
+                K = rng.choice([0, 1, 2, d * N])
+                ev = np.array([[rng.uniform(-1, 1) for _ in range(K)] for _ in range(d * N)]).reshape(d * N, K)
+                om = np.array([rng.uniform(0.3, 3) for _ in range(K)])
+            keep_ev, keep_om = ev.copy(), om.copy()
+            path = os.path.join(tmp, f"vib{k}.npy")
+            tried += 1
+            inputs = {"eigenfrequencies": keep_om.tolist(), "eigenvectors": keep_ev.tolist(), "num_of_partices": N}
+            try:
+                got = V.vibrability(om, ev, N, outputfile=path) if tofile else V.vibrability(om, ev, N)
+            except Exception as ex:
+                return {"ran": True, "failed": True, "searched": tried, "from_model": first, "inputs": inputs, "detail": f"raises {type(ex).__name__}: {ex}"}
+            got = np.asarray(got, dtype=float)
+            bad = None
+            if got.shape != (N,):
+                bad = f"shape {got.shape}, expected ({N},)"
+            else:
+                for i in range(N):
+                    want = sum(sum(keep_ev[d * i + c, l] ** 2 for c in range(d)) / keep_om[l] ** 2 for l in range(K))
+                    if abs(got[i] - want) > 1e-9 * max(1.0, abs(want)):
+                        bad = f"vibrability[{i}] = {got[i]!r}, eigenvalue-weighted mode sum = {want!r}"
+                        break
+            if bad is None and tofile:
+                if not os.path.exists(path):
+                    bad = "outputfile was not written"
+                elif not np.array_equal(np.load(path), got):
+                    bad = "saved array differs from the returned one"
+            if bad is None and not (np.array_equal(keep_ev, ev) and np.array_equal(keep_om, om)):
+                bad = "an input array was modified"
+            if bad:
+                return {"ran": True, "failed": True, "searched": tried, "from_model": first, "inputs": inputs, "detail": bad}
+    finally:
+        shutil.rmtree(tmp, ignore_errors=True)
+    return {"ran": True, "failed": False, "searched": tried, "detail": "real code satisfies every clause on the model inputs and the seeded inputs"}
+
+
 def _replay_nb(qualname, case, clause, model, seed):
     """replay of local_vector_alignment / phase_quotient on the real code with a real neighbour file"""
     import importlib
@@ -778,7 +897,7 @@ def _replay_nb(qualname, case, clause, model, seed):
     return {"ran": True, "failed": False, "searched": tried, "detail": "real code satisfies every clause on the model inputs and the seeded inputs"}
 
 
-UNITS = [ParticipationRatio(), LocalAlignment(), PhaseQuotient(), DivergenceCurl()]
+UNITS = [ParticipationRatio(), LocalAlignment(), PhaseQuotient(), DivergenceCurl(), Vibrability()]
 
 MANIFEST = {
     "text": "",
